@@ -78,6 +78,9 @@ type regSnap struct {
 }
 
 func snapRegistry() regSnap {
+	if inChild {
+		return regSnap{}
+	}
 	n := otp.ListSuites()
 	sortStrings(n)
 	r := regSnap{names: n}
